@@ -55,6 +55,11 @@ CHECKS = {
             'for every threshold (any integer), Accept-Encoding shape and request order in the tables a Content-Encoding is declared only if offered, '
             'enabled and the body reached the threshold, the body is exactly the declared transform of the payload, and labels never leak to later responses or other server instances.',
             'Trusted: CrossHair, z3, the JS literal evaluator (oracle), zlib/gzip losslessness (validated concretely per run).', '§3 C19'),
+    'C11': (SIM + '; symbolic integer heartbeat settings (bounded), fractional table in exact rationals, selectors for transports / upgrades / WebSocket availability / cookie forms / connect outcomes / JSONP; advertised upgrades are attempted in the same run',
+            'For every configuration inside the bounds, on both servers: one session, OPEN first with the handler\'s sid and the configured numbers, '
+            'websocket advertised only if the upgrade attempted right afterwards is accepted, Set-Cookie exactly when configured with sid and attributes, '
+            '401 (+ truthy value) and an unaddressable id for every rejecting connect outcome.',
+            'Trusted: CrossHair, z3, the simulated environment. Integer settings are bounded because they are rendered in decimal; selector-only conditions run the scenario concretely per solver-enumerated selector tuple.', '§3 C11'),
 }
 
 NOT_BUILT = 'check not built yet in this round (see DESIGN.md §8 build order); not claimed until it runs'
